@@ -41,11 +41,24 @@ WG = [("n", lambda t: t.n()), ("min", lambda t: t.min()),
 
 def snapshot(t):
     out = []
+    # the same queries in keyword style, asked first: the answers below must
+    # not depend on which spelling was used before
+    try:
+        kw = (t.weighted_variance(biased=False), t.weighted_stdev(biased=False),
+              t.weighted_variance(biased=True), t.weighted_stdev(biased=True))
+    except Exception as ex:  # noqa
+        kw = ("raised", type(ex).__name__)
     for name, f in WG:
         try:
             out.append(f(t))
         except Exception as ex:  # noqa
             out.append(("raised", type(ex).__name__))
+    d = dict(zip([g[0] for g in WG], out))
+    pos = (d["wvar_u"], d["wsd_u"], d["wvar_b"], d["wsd_b"])
+    if not all(same(a_, b_) for a_, b_ in zip(kw, pos)):
+        # reported through the value of the first getter of the snapshot
+        out[0] = ("raised", "keyword-and-positional-queries-disagree: "
+                  "%r vs %r" % (kw, pos))
     return out
 
 
@@ -462,6 +475,56 @@ def ts_worker(task):
     return dict(variant=variant, n=n, viols=viols, sample=sample)
 
 
+def reinit_listener_check():
+    """a subscriber that reacts to the 'initialized' notification by
+    registering the current value of its signal again: that observation
+    belongs to the new period (it is made after the initialisation)"""
+    from pydsol.core import statistics as S
+    from pydsol.core.pubsub import EventListener
+    from pydsol.core.interfaces import StatEvents
+    bad = []
+    n = 0
+    for before in ([], [(1.0, 3.0)], [(2.0, 1.0), (0.0, 9.0), (1.5, 4.0)]):
+        for times in (1, 2):
+            n += 1
+            t = S.EventBasedWeightedTally("w")
+
+            class Again(EventListener):
+                def notify(self_, e):
+                    t.register(2.0, 6.0)
+            t.add_listener(StatEvents.INITIALIZED_EVENT, Again())
+            for w, v in before:
+                t.register(w, v)
+            for _ in range(times):
+                t.initialize()
+            t.register(1.0, 3.0)
+            got = (t.n(), t.weighted_sum(), t.weighted_mean(), t.min(),
+                   t.max())
+            want = (2, 15.0, 5.0, 3.0, 6.0)
+            if got != want:
+                bad.append(("observation-made-on-initialized-notification-"
+                            "lost:weighted", before, times, got, want))
+            n += 1
+            p = S.EventBasedTimestampWeightedTally("p")
+
+            class AgainT(EventListener):
+                def notify(self_, e):
+                    p.register(10.0, 6.0)
+            p.add_listener(StatEvents.INITIALIZED_EVENT, AgainT())
+            for i, (w, v) in enumerate(before):
+                p.register(float(i), v)
+            for _ in range(times):
+                p.initialize()
+            p.register(15.0, 1.0)
+            p.end_observations(20.0)
+            got = (p.weighted_sum(), p.weighted_mean())
+            want = (35.0, 3.5)
+            if got != want:
+                bad.append(("observation-made-on-initialized-notification-"
+                            "lost:timestamped", before, times, got, want))
+    return n, bad
+
+
 XW = [0.0, 5e-324, 1e-310, 1e-162, 1.0, 1e150, 1e300]
 XV = [0.0, 5e-324, 1e-162, 1e-110, 1.0, -1e150, 1e150, 1e308]
 
@@ -559,6 +622,11 @@ def run(ctx):
                           {"kind": "w", "variant": r["variant"],
                            "history": v[1]}, rank=len(v[1]))
     ctx.part("weighted histories", nodes=nodes, depth=L)
+    nr, rbad = reinit_listener_check()
+    for b in rbad:
+        ctx.violation("C10:%s" % b[0], "event-based tally: %s" % (b,),
+                      {"kind": "reinit"})
+    ctx.part("re-announcing subscribers on initialize", cases=nr)
     nx = 0
     for n_, viols in common.pimap(extreme_worker,
                                   [(w, v) for w in XW for v in XV]):
@@ -612,6 +680,14 @@ def run(ctx):
 
 
 def replay(data):
+    if data.get("kind") == "reinit":
+        return reinit_listener_check()[1] or None
+    if data.get("kind") == "x":
+        out = []
+        for w in XW:
+            for v in XV:
+                out += extreme_worker((w, v))[1][:2]
+        return out[:5] or None
     if data.get("kind") == "t":
         bad = check_ts_history(data["variant"], data["ts"], data["vals"],
                                data["tend"], data["reinit"])
